@@ -179,6 +179,9 @@ func c19Ops() []c19Op {
 		long := b + strings.Repeat("{{ a }} text {% if a %}x{% endif %}", 40)
 		add(fmt.Sprintf("exec/str/broken#%d+tail", i), func(e *c19Envs) error { return c19Exec(e.str, long) })
 		add(fmt.Sprintf("parse/str/broken#%d+tail", i), func(e *c19Envs) error { _, err := e.str.Parse(long); return err })
+		// ... the same behind and in front of delimiters that carry whitespace-control markers
+		marked := "{{- a -}} {%- if a -%} x {%- endif -%} {#- c -#}" + b + strings.Repeat(" {{- a -}} text {%- if a -%}x{%- endif -%}", 40)
+		add(fmt.Sprintf("exec/str/broken#%d+markers", i), func(e *c19Envs) error { return c19Exec(e.str, marked) })
 	}
 	// an early error followed by a long remainder: whatever the lexer still has to deliver after the parser gave up
 	tails := map[string]func(n int) string{
